@@ -4,6 +4,7 @@
    and (b) what the harness threads emitted. *)
 From Coq Require Import List NArith ZArith Bool.
 Import ListNotations.
+Require Export MV.C11.Wire.
 Open Scope N_scope.
 
 Definition sbytes := list N.
@@ -41,7 +42,6 @@ Fixpoint split_fuel (fuel : nat) (s : sbytes) : list sbytes * sbytes :=
 Definition split_frames (s : sbytes) : list sbytes * sbytes := split_fuel (S (length s)) s.
 
 (* ---- protobuf wire format *)
-Inductive wv := VInt (n : N) | V64 (n : N) | VLen (b : sbytes) | V32 (n : N).
 
 Fixpoint le_num (s : sbytes) : N := match s with [] => 0 | b :: r => b + 256 * le_num r end.
 
